@@ -17,6 +17,7 @@ proof blocks.  No executable token of the extracted code is edited.
   @hint start          proof text at the start of the body
   @hint after|before <k> :: <statement text>   proof text next to the k-th occurrence of the text
   @hint loopstart <k>                          proof text as first statement of the k-th loop's body
+  @hint beforeloop <k> / afterloop <k>         proof text just before the k-th loop / just after its closing brace
   @closure <k> :: <binder: type> :: <ensures>  contract for the k-th closure
   @end                 ends a sub-block
 """
@@ -268,6 +269,15 @@ def _weave_sub(sub, e, fnid, src, sig_end, body_close, lps, edits, vacuity, spli
         at = sig_end + 1 + max(inner.rfind(';'), inner.rfind('}')) + 1
         text, metas = _mk(lines, fnid, 'hint', e['props'])
         edits.append(Edit(at, '\n' + text + '\n', 6, [None] + metas + [None]))
+    elif re.match(r'@hint (beforeloop|afterloop) \d+\s*$', head):
+        # just before the k-th loop statement / just after its closing brace (structural anchors)
+        which, k = head.split()[1], int(head.split()[2])
+        if k > len(lps):
+            raise AnchorLost('loop %d of %s' % (k, fnid))
+        ks, ob = lps[k - 1]
+        at = ks if which == 'beforeloop' else match_brace(src, ob) + 1
+        text, metas = _mk(lines, fnid, 'hint', e['props'])
+        edits.append(Edit(at, '\n' + text + '\n', 6, [None] + metas + [None]))
     elif re.match(r'@hint loopstart \d+\s*$', head):
         # first statement of the body of the k-th loop (structural anchor: survives edits of the loop's statements)
         k = int(head.split()[2])
@@ -334,7 +344,7 @@ def _weave_sub(sub, e, fnid, src, sig_end, body_close, lps, edits, vacuity, spli
         edits.append(Edit(j, ' }', 8))
 
 
-def weave(src, vspecs, vacuity=False, split=None):
+def weave(src, vspecs, vacuity=False, split=None, isolate=()):
     """vspecs: [(filename, text)].  Returns (woven text, info) where info has:
        line_meta: {woven line -> meta}, fns: [{id, props, start_line, end_line, contract:bool}], obligations"""
     entries = []
@@ -344,6 +354,7 @@ def weave(src, vspecs, vacuity=False, split=None):
     fn_entries = []
     normalised = []
     lost_hints = []
+    isolated = []
     splits = {}      # fn id -> [case name, ...]   (path-split verification, see _weave_sub '@split')
     for e in entries:
         ms, me = mod_range(src, e['mod'])
@@ -410,6 +421,12 @@ def weave(src, vspecs, vacuity=False, split=None):
                            'decl_of_trait': block_type_name(e['block']) if re.match(r'\s*(pub\s+)?trait\b', e['block']) else None})
         if body_close is None:
             continue
+        if fnid in isolate:
+            # a proof anchor of this function was lost and the remaining proof text did not compile: keep the contract,
+            # leave the body out of this run (the function is reported as not verified -> undecided, never as an alarm)
+            edits.append(Edit(kw, '#[verifier::external_body] /*@@ISOLATED*/ ', -2))
+            isolated.append(fnid)
+            continue
         if vacuity and 'external_body' not in (e.get('attr') or ''):
             edits.append(Edit(sig_end + 1, '\n proof { assert(false); } //@@VACUITY-PROBE %s\n' % fnid, 3,
                               [None, {'fn': fnid, 'label': 'vacuity-probe', 'props': [], 'kind': 'vacuity', 'where': e['where'], 'text': ''}, None]))
@@ -460,7 +477,7 @@ def weave(src, vspecs, vacuity=False, split=None):
     for fe in fn_entries:
         fe['start_line'] = line_of(map_pos(fe['kw']))
         fe['end_line'] = line_of(map_pos(fe['close']))
-    info = {'line_meta': line_meta, 'fn_entries': fn_entries, 'map_pos': map_pos, 'line_of': line_of, 'normalised_receivers': normalised, 'lost_hints': lost_hints, 'splits': splits}
+    info = {'line_meta': line_meta, 'fn_entries': fn_entries, 'map_pos': map_pos, 'line_of': line_of, 'normalised_receivers': normalised, 'lost_hints': lost_hints, 'splits': splits, 'isolated': isolated}
     return woven, info
 
 
